@@ -407,7 +407,10 @@ func (fr *frame) call2(b *ssa.BasicBlock, site ssa.Instruction, c *ssa.CallCommo
 		return res, nh
 	}
 	// contracts
-	if con, ok := x.eng.contracts[name]; ok && !con.Inline {
+	// (a contract under verification that declares a callee pure keeps that abstraction - an assumption it lists - even
+	// when the callee has a non-pure contract of its own: the callee's clauses are then checked on the callee only)
+	callerAbstracts := fr.depth == 0 && (fr.pure[name] || fr.pure[shortCallee(name)])
+	if con, ok := x.eng.contracts[name]; ok && !con.Inline && !(callerAbstracts && !con.Pure) {
 		return fr.applyContract(b, site, con, name, args, atypes, sig, rt, reach, h)
 	}
 	// closures / inlinable callees
